@@ -169,7 +169,10 @@ class BurstOracle:
                     break
                 t = t2
             return t
-        uses = [plain(j) for j in outcome["csrf_rows"]].count(plain(tok))
+        # the record of a used token is the token itself or the token without a middle part (its expiry stamp)
+        pt = plain(tok)
+        uses = sum(1 for j in map(plain, outcome["csrf_rows"])
+                   if j == pt or (len(j) >= 16 and pt.startswith(j[:8]) and pt.endswith(j[8:])))
         ok_status = [r.status for r in outcome["results"]]
         if uses > 1:
             ops = "+".join(sorted(r["recipe"]["op"] for r in reqs))
